@@ -373,7 +373,7 @@ class Gen:
         """a variable of env; by default one that holds a plain value (never a function: printing one would print
         source text)"""
         if pred is None:
-            pred = lambda v: v.kind not in ("fn", "fs")
+            pred = lambda v: v.kind not in ("fn", "fs", "arr", "ob")
         c = [v for sc in env for v in sc if pred(v)]
         return self.r.choice(c) if c else None
 
@@ -439,8 +439,15 @@ class Gen:
             ("EUpdate", r.random() < 0.5, True, x),
             ("EUpdate", False, False, x),
         ])
-        op = r.choice(["BAdd", "BAdd", "BMul", "BSub", "BLt", "BSEq"])
+        if r.random() < 0.5:
+            wr = self.contain(env, wr)
+        op = r.choice(["BAdd", "BAdd", "BMul", "BSub", "BLt", "BSEq", "BBitAnd", "BBitOr", "BShl", "BGe", "BIn"])
+        if op == "BIn" and wr[0] not in ("EObject", "EArray"):
+            op = "BAdd"
         k = r.random()
+        if k < 0.12:
+            self.feat("operand-reuse-compound-assignment")
+            return ("EOpAssign", r.choice(["BAdd", "BMul", "BSub", "BBitOr"]), x, wr)
         if k < 0.4:
             return ("EBinary", op, x, wr)
         if k < 0.6:
@@ -450,6 +457,39 @@ class Gen:
         if k < 0.9:
             return ("EArray", [("AElem", x), ("AElem", wr), ("AElem", x)])
         return ("ETemplate", [u(""), u("-"), u("-"), u("")], [x, wr, x])
+
+    def contain(self, env, wr):
+        """hide a write of a local inside a larger right operand: a computed key, a call argument, a template / array /
+        object literal, a conditional, a comma expression, an optional chain"""
+        r = self.r
+        arr = self.pick(env, lambda v: v.kind == "arr")
+        ob = self.pick(env, lambda v: v.kind == "ob")
+        shapes = ["call", "tpl", "cond", "comma", "arr", "obj"]
+        if arr is not None:
+            shapes += ["idx", "idx", "optidx", "idx-in-call"]
+        if ob is not None:
+            shapes += ["chain", "chain"]
+        k = r.choice(shapes)
+        self.feat("operand-reuse-in-" + k)
+        if k == "idx":
+            return ("EIndex", ident(arr.name), wr, False)
+        if k == "optidx":
+            return ("EOptChain", ("EIndex", ident(arr.name), wr, True))
+        if k == "idx-in-call":
+            return call(ident("Number"), ("EIndex", ident(arr.name), wr, False))
+        if k == "chain":
+            return ("EIndex", member(member(ident(ob.name), "p"), "q"), wr, False)
+        if k == "call":
+            return call(ident(r.choice(["Number", "String"])), wr)
+        if k == "tpl":
+            return ("ETemplate", [u("<"), u(">")], [wr])
+        if k == "cond":
+            return ("ECond", ("EBool", r.random() < 0.7), wr, num(0))
+        if k == "comma":
+            return ("ESeq", num(0), wr)
+        if k == "arr":
+            return ("EArray", [("AElem", num(1)), ("AElem", wr)])
+        return ("EObject", [("PInit", ("PKStr", u("1")), num(0)), ("PInit", ("PKStr", u("k")), wr)])
 
     # ---- closures
     def closure(self, env, body_env_extra=(), arrow=None):
@@ -486,7 +526,7 @@ class Gen:
         return st
 
     def print_locals(self, env):
-        vs = [v for sc in env[1:] for v in sc if v.kind not in ("fn", "fs")][-6:]
+        vs = [v for sc in env[1:] for v in sc if v.kind not in ("fn", "fs", "arr", "ob")][-6:]
         if not vs:
             return []
         return [pr(*[ident(v.name) for v in vs])]
@@ -543,6 +583,13 @@ class Gen:
         lhs = ident(a.name) if a is not None and r.random() < 0.8 else self.expr(env, 2)
         rhs = self.expr(env, 2) if r.random() < 0.5 else self.lit()
         c = ("EBinary", r.choice(CMP), lhs, rhs)
+        w = self.writable(env)
+        if w is not None and r.random() < 0.2:
+            # the compared local is written inside the other operand (fused compare-and-branch must read the old value)
+            wx = ident(w.name)
+            wr = r.choice([("EUpdate", False, True, wx), ("EOpAssign", "BAdd", wx, num(1)), ("EAssign", ("PId", u(w.name)), self.numlit())])
+            c = ("EBinary", r.choice(["BLt", "BLe", "BGt", "BGe"]), wx, self.contain(env, wr) if r.random() < 0.7 else wr)
+            self.feat("operand-reuse-in-branch-condition")
         if r.random() < 0.2:
             c = ("EUnary", "UNot", c)
         if r.random() < 0.2:
@@ -898,6 +945,12 @@ class Gen:
         nm = self.fresh("n")
         body.append(("SDecl", "KLet", [(("PId", u(nm)), num(r.randint(2, 4)))]))
         env[-1].append(Var(nm, "let", True))
+        ar, ob = self.fresh("arr"), self.fresh("ob")
+        body.append(("SDecl", "KConst", [(("PId", u(ar)), ("EArray", [("AElem", num(v)) for v in (10, 20, 30, 40, 50)]))]))
+        body.append(("SDecl", "KConst", [(("PId", u(ob)), ("EObject", [("PInit", ("PKStr", u("p")), ("EObject", [("PInit", ("PKStr", u("q")),
+                     ("EArray", [("AElem", num(v)) for v in (3, 4, 5, 6)]))]))]))]))
+        env[-1].append(Var(ar, "arr"))
+        env[-1].append(Var(ob, "ob"))
         if r.random() < 0.3:
             body.append(pr(member(ident("arguments"), "length")))
             self.feat("arguments-length")
